@@ -91,7 +91,7 @@ def main():
         "setup_cmd": "./check setup",
         "hooks": {
             "guard": "verif",
-            "enable": "no hook is committed in /repo: yield points are inserted at check time by /verif/instr into copies of /repo's current sources and compiled with `go build -overlay` (tag `verif` selects the harness-side scheduler files); with the overlay absent the shipped code is byte-identical",
+            "enable": "no hook is committed in /repo: yield points are inserted at check time by /verif/instr into copies of /repo's current sources and compiled with `go build -tags verif -overlay <overlay.json> -gcflags=github.com/ChrisTrenkamp/xsel/verifhook=-complete=false` (tag `verif` selects the harness-side scheduler files; the gcflag lets the scheduler use two linkname-accessible runtime functions without an assembly stub); with the overlay absent the shipped code is byte-identical",
             "baseline_off_cmd": "cd /repo && GOFLAGS=-mod=mod GOPROXY=off GOSUMDB=off GOTOOLCHAIN=local go test -vet=off -count=1 ./...",
             "source_commits": [],
             "add_only": True,
